@@ -559,6 +559,7 @@ type T struct {
 	refDraws []any
 	mu       sync.RWMutex
 	failed   stopTest
+	parent   *T // of the T handed to a Custom generator function: the T the value is drawn from
 }
 
 func newT(tb tb, s bitStream, tbLog bool, rawLog *log.Logger, refDraws ...any) *T {
@@ -845,6 +846,12 @@ func (t *T) skip(msg string) {
 func (t *T) fail(now bool, msg string) {
 	if msg == "" {
 		msg = "(no failure message)" // empty t.failed means "has not failed"
+	}
+
+	if t.parent != nil {
+		// like a failure signalled on the T of the property itself, this one is on record
+		// even if the panic that reports it is recovered on its way up
+		t.parent.fail(false, msg)
 	}
 
 	t.mu.Lock()
